@@ -346,6 +346,35 @@ func appendPBDesigns(replay bool) []core.Design {
 	}
 }
 
+// parsePBCases: the (facts, PB constraint) pairs of AppendPB.tla given to the constraint front end at
+// once (unit constraints before or after the constraint): parse-time simplification of a PB constraint
+// under facts must leave exactly the models of the conjunction (counted, then solved).
+func parsePBCases(env *core.Env, emitted []core.Case) []core.Case {
+	var res []core.Case
+	for i, e := range emitted {
+		c, _ := e["c"].(map[string]any)
+		ctor := gen.Ctor("gteq", toInts(c["lits"]), toInts(c["w"]), int(c["d"].(float64)))
+		var units []gen.M
+		for _, f := range toInts(e["facts"]) {
+			units = append(units, gen.Clause(f))
+		}
+		cons := append(append([]gen.M{}, units...), ctor)
+		if i%2 == 1 {
+			cons = append([]gen.M{ctor}, units...)
+		}
+		ev := []gen.M{gen.Op("count")}
+		if i%3 == 0 {
+			ev = []gen.M{gen.Op("solve")}
+		}
+		res = append(res, gen.APICase("pb", int(e["n"].(float64)), false, cons, false, nil, gen.Cfg(false, 0, 0, false, false, true), ev))
+	}
+	if max := env.Pick(4000, 60000); len(res) > max {
+		env.Rand.Shuffle(len(res), func(i, j int) { res[i], res[j] = res[j], res[i] })
+		res = res[:max]
+	}
+	return res
+}
+
 func init() {
 	// C02 — cardinality and pseudo-boolean constraints
 	register(&core.Check{
@@ -355,6 +384,8 @@ func init() {
 			{Name: "normalize", Module: "Normalize", Cfg: "Normalize_quick.cfg", Tier: "quick", Workers: 4, XmxMB: 4000, Timeout: 10 * time.Minute, ToCases: normalizeCases},
 			{Name: "normalize", Module: "Normalize", Cfg: "Normalize_thorough.cfg", Tier: "thorough", Workers: 16, XmxMB: 8000, Timeout: 30 * time.Minute, ToCases: normalizeCases},
 			{Name: "pbprop", Module: "PBProp", Cfg: "PBProp.cfg", Workers: 6, XmxMB: 4000, Timeout: 10 * time.Minute},
+			{Name: "pb-under-facts", Module: "AppendPB", Cfg: "AppendPB_quick.cfg", Tier: "quick", Workers: 8, XmxMB: 6000, Timeout: 20 * time.Minute, ToCases: parsePBCases},
+			{Name: "pb-under-facts", Module: "AppendPB", Cfg: "AppendPB_thorough.cfg", Tier: "thorough", Workers: 16, XmxMB: 12000, Timeout: 30 * time.Minute, ToCases: parsePBCases},
 		},
 		TraceModule: "APITrace",
 		Cases: func(env *core.Env) []core.Case {
